@@ -283,6 +283,19 @@ func cmdFaults(args []string) int {
 				if !exec(op, "", "store-err") {
 					return 2
 				}
+				// the write fails for a batch in which entries the rules refuse (a target the key has left behind)
+				// stand before, between or after entries they approve
+				if sh.kind == KAttests && sh.n > 1 {
+					for stalePos := 0; stalePos < sh.n; stalePos++ {
+						op := mkOp(sh.kind, sh.n)
+						op.Atts[stalePos].Src = &Checkpoint{0, fill32(0)}
+						op.Atts[stalePos].Tgt = &Checkpoint{1, fill32(9)}
+						op.Fault.Store = true
+						if !exec(op, "", "store-err-mixed") {
+							return 2
+						}
+					}
+				}
 				op = mkOp(sh.kind, sh.n)
 				for i := 0; i < sh.n; i++ {
 					op.Fault.Fetch = append(op.Fault.Fetch, i)
